@@ -67,6 +67,7 @@ pub fn det_families() -> Vec<&'static str> {
 }
 
 pub mod live_park;
+pub mod live_park_once;
 pub mod live_condvar;
 pub mod live_cqueue;
 pub mod live_local;
@@ -97,6 +98,7 @@ pub fn build_live(family: &str, rng: &mut Rng, tier: u32) -> Option<LiveBuilt> {
         "blocker" => Some(live_park::build_blocker(rng, tier)),
         "park_sleepers" => Some(live_park::build_sleepers(rng, tier)),
         "park_f6" => Some(live_park::build_f6(rng, tier)),
+        "park_once" => Some(live_park_once::build(rng, tier)),
         "join" => Some(live_join::build(rng, tier)),
         "rwlock_live" => Some(live_rwlock::build(rng, tier)),
         "life" => Some(live_life::build(rng, tier)),
